@@ -123,8 +123,8 @@ def schedules(rem, cur, k):
 
 class C12(Prop):
     id = 'C12'
-    budgets = {'quick': 2500, 'thorough': 30000}
-    time_limit = {'quick': 60, 'thorough': 540}
+    budgets = {'quick': 2000, 'thorough': 30000}
+    time_limit = {'quick': 45, 'thorough': 540}
     rule = ('1-4 real threads (mostly 2-3), each driving its own ThreadsafeForwardingResult through 0-3 tests (arbitrary outcomes, explicit/wall '
             'times, run-level and test-level tags, also start-less / unfinished tests) and control calls (startTestRun, stopTestRun, stop, done, '
             'shouldStop), 0-3 raising target calls per case; schedules: quick = every schedule with <= 2 pre-emptions of 4 small base programs '
